@@ -45,6 +45,10 @@ extern int mpt_path_set(MPT_STRUCT(path) *path, const char *val, int len)
 			first = plen - 1;
 		}
 	}
+	/* last element ended by length limit */
+	if (add) {
+		++elem;
+	}
 	mpt_path_fini(path);
 	
 	path->base = val;
